@@ -62,6 +62,21 @@ let mk_ops (rd : float -> float) : float ops =
 
 let f32 = mk_ops r32
 let f64 = mk_ops (fun x -> x)
+(* conditioning probe (stochastic arithmetic): binary32 whose every rounded result is moved by
+   one ulp up or down, pseudo-randomly but reproducibly; the spread of a result over a few noise
+   seeds estimates how much binary32 rounding (libm differences, fused multiply-add) can move it *)
+let noise_state = ref 0
+let f32_noisy (seed : int) : float ops =
+  noise_state := seed * 7919 + 1;
+  mk_ops (fun x ->
+    let y = r32 x in
+    noise_state := (!noise_state * 1103515245 + 12345) land 0x3fffffff;
+    if Float.is_finite y && y <> 0.0 && y <> x then        (* only results that were actually rounded *)
+      (match (!noise_state lsr 13) land 3 with
+       | 0 -> Float.succ y |> r32 |> fun z -> if z = y then Int32.float_of_bits (Int32.add (Int32.bits_of_float y) 1l) else z
+       | 1 -> Int32.float_of_bits (Int32.sub (Int32.bits_of_float y) 1l)
+       | _ -> y)
+    else y)
 
 (* ---- canonical DAG dump (identical grammar in harness/expr.cpp) ---- *)
 let dump_dag (a : float arena) (root : int) (var_index : int -> int) : string =
@@ -338,7 +353,14 @@ let () =
                     let d = Float.abs (r' -. ref64) in
                     if d > 20.0 *. Float.abs k *. Float.max s (1e-6 *. (1.0 +. Float.abs ref64)) || Float.is_nan d
                     then Float.max s 1e30 else s) sens [30.0; -30.0; 300.0; -300.0] in
-                out (Printf.sprintf "V %s %s %s %s %s" (hex32 v32) (hex32 v32u) (hex64 ref64) (hex64 mx) (hex64 sens))
+                (* rounding-noise probe: spread of the un-optimised binary32 value under one-ulp noise *)
+                let noise = List.fold_left (fun acc seed ->
+                    let o = f32_noisy seed in
+                    let v = eval_pipeline o false !a (h t) varval x y z in
+                    let d = if Float.is_nan v && Float.is_nan v32u then 0.0
+                            else if Float.is_nan v || Float.is_nan v32u then infinity else Float.abs (v -. v32u) in
+                    Float.max acc d) 0.0 [1; 2; 3; 4] in
+                out (Printf.sprintf "V %s %s %s %s %s %s" (hex32 v32) (hex32 v32u) (hex64 ref64) (hex64 mx) (hex64 sens) (hex64 noise))
             | "archive", nshapes :: rest ->
                 (* archive N, then per shape: h name doc nv, then nv pairs (varhandle name); variables in serialisation order *)
                 let rest = ref rest in
@@ -389,10 +411,19 @@ let () =
                 let vcd = List.map (fun (k, _) ->
                     cd (fun e -> f (fun i -> if var_index i = k then varval i +. e else varval i) x y z)) vp in
                 let smooth = if defined then smooth else infinity in
-                out (Printf.sprintf "DV %s %s %s %s cd %s %s %s %s vars %s vcd %s" (hex32 v) (hex32 gx) (hex32 gy) (hex32 gz)
+                (* conditioning: how far the model's own gradient moves under one-ulp noise *)
+                let spread = List.fold_left (fun acc seed ->
+                    let o = f32_noisy seed in
+                    let (_, ((nx, ny), nz)) = deriv_at o no_oracle d (fun i -> varval (int_of_nat i)) x y z in
+                    let nv = List.map (fun (slot, _) -> var_partial o no_oracle d (fun i -> varval (int_of_nat i)) x y z slot) d.d_vars in
+                    let pv = List.map (fun (slot, _) -> var_partial f32 no_oracle d (fun i -> varval (int_of_nat i)) x y z slot) d.d_vars in
+                    let df a b = if Float.is_nan a || Float.is_nan b then (if Float.is_nan a && Float.is_nan b then 0.0 else infinity)
+                                 else Float.abs (a -. b) in
+                    List.fold_left Float.max acc ([df nx gx; df ny gy; df nz gz] @ List.map2 df nv pv)) 0.0 [1; 2; 3; 4] in
+                out (Printf.sprintf "DV %s %s %s %s cd %s %s %s %s vars %s vcd %s cond %s" (hex32 v) (hex32 gx) (hex32 gy) (hex32 gz)
                        (hex64 dx) (hex64 dy) (hex64 dz) (hex64 smooth)
                        (String.concat "," (List.map (fun (k, g) -> Printf.sprintf "%d:%s" k (hex32 g)) vp))
-                       (String.concat "," (List.map hex64 vcd)))
+                       (String.concat "," (List.map hex64 vcd)) (hex64 spread))
             (* --- second-stage commands: start from the implementation's artefact --- *)
             | "deckof", dag ->
                 let (a1, r, vars) = load_dag f32 dag in
